@@ -116,6 +116,10 @@ func main() {
 		fmt.Println(len(t.Rows), "rows; unsupported:", t.Unsupported)
 		return
 	}
+	if os.Getenv("AKITA_GUARD_SURVEY") != "" {
+		guardSurvey(prog)
+		return
+	}
 	known, err := loadKnown(filepath.Join(*verif, "known_findings.json"))
 	if err != nil {
 		fmt.Fprintln(os.Stderr, "known_findings.json:", err)
